@@ -9,7 +9,7 @@ Extraction Language OCaml.
 Separate Extraction WMap.rd WMap.wr WMap.zero WMap.empty WMap.load_words PositiveMap.elements
   Isa.step Isa.run Isa.boot Isa.words_of_bytes
   Vexp.eval RtlSv.design RtlV.design RtlVSynth.design RtlHex.design RtlSem.cycle RtlSem.outs RtlSem.wire RtlSem.getv
-  SimModel.step SimModel.run SimModel.init SimModel.arch_of
+  SimModel.step SimModel.run SimModel.init SimModel.arch_of SimModel.trace_symbol SimModel.trace_prefix
   AsmModel.lex AsmModel.parse AsmLayout.assemble_directives AsmLayout.assemble AsmLayout.diag_location AsmLayout.codegen AsmLayout.emit_bin
   AsmLayout.num_nibbles AsmLayout.enc_size AsmLayout.emit_instr AsmLayout.instr_len
   AsmStatements.struct_listing CliModel.hexasm_main CliModel.xcmp_main CliModel.hexsim_main CliModel.xrun_main
